@@ -141,6 +141,7 @@ var progWeights = map[string][skKinds]int{
 	"C05": {3, 3, 2, 2, 5, 1, 8, 10, 5, 0, 3, 3, 3, 0, 1, 0, 1},
 	"C06": {10, 10, 8, 8, 3, 2, 1, 1, 3, 1, 2, 1, 2, 3, 2, 2, 1},
 	"C07": {10, 10, 8, 8, 3, 2, 1, 1, 3, 2, 3, 1, 2, 3, 2, 2, 1},
+	"C08": {2, 2, 3, 5, 3, 2, 1, 1, 1, 0, 1, 1, 2, 16, 0, 0, 0},
 	"C09": {2, 2, 4, 4, 3, 2, 1, 1, 1, 0, 1, 1, 2, 14, 0, 0, 0},
 	"C10": {2, 2, 3, 3, 8, 1, 1, 1, 1, 0, 1, 1, 2, 14, 0, 0, 0},
 	"C11": {3, 3, 4, 4, 3, 2, 1, 1, 1, 0, 1, 1, 2, 14, 0, 0, 4},
@@ -154,8 +155,9 @@ var progWeights = map[string][skKinds]int{
 	"C19": {4, 6, 1, 1, 8, 0, 1, 1, 1, 14, 0, 1, 1, 0, 2, 0, 0},
 	"C20": {4, 4, 1, 1, 8, 0, 1, 2, 2, 12, 0, 1, 1, 0, 5, 0, 0},
 	"C21": {4, 4, 1, 1, 8, 0, 1, 1, 1, 14, 0, 1, 1, 0, 2, 0, 0},
-	"C22": {8, 8, 1, 1, 4, 0, 4, 3, 1, 0, 0, 1, 2, 0, 0, 0, 0},
-	"C23": {10, 6, 1, 1, 4, 0, 3, 2, 1, 0, 0, 1, 8, 0, 0, 0, 0},
+	"C22": {8, 8, 1, 1, 4, 4, 4, 3, 1, 0, 0, 1, 2, 0, 0, 0, 0},
+	"C23": {10, 6, 1, 1, 4, 4, 3, 2, 1, 0, 0, 1, 8, 0, 0, 0, 0},
+	"C25": {4, 4, 4, 4, 4, 3, 3, 2, 3, 4, 2, 2, 3, 10, 1, 1, 1},
 }
 
 func (a *asm) audioSnippet() {
@@ -240,7 +242,7 @@ func (a *asm) lcdSnippet() {
 
 func (a *asm) cartSnippet() {
 	r := a.r
-	switch r.intn(8) {
+	switch r.intn(9) {
 	case 0:
 		a.st16(r.intn(0x2000), []int{0x0a, 0x0a, 0x00, 0x1a, int(r.byte())}[r.intn(5)])
 	case 1:
@@ -253,6 +255,14 @@ func (a *asm) cartSnippet() {
 		a.st16(0xa000+r.intn(0x2000), int(r.byte()))
 	case 6:
 		a.ld16Log(0xa000 + r.intn(0x2000))
+	case 7: // MBC3 clock registers: enable, select one, write it (bit 6 of the day-high register halts the clock), latch
+		a.st16(0x0000, 0x0a)
+		sel := 0x08 + r.intn(8)
+		a.st16(0x4000, sel)
+		a.st16(0xa000+r.intn(0x2000), []int{0x40, 0x00, 0x41, 0xc1, int(r.byte())}[r.intn(5)])
+		a.st16(0x6000, 0)
+		a.st16(0x6000, 1)
+		a.ld16Log(0xa000)
 	default:
 		a.ld16Log(0x4000 + r.intn(0x4000))
 	}
@@ -350,12 +360,22 @@ func (a *asm) snippet(k int, subAddr int, st *progState) {
 	case skIOW:
 		reg := progIORegs[r.intn(len(progIORegs))]
 		v := a.val()
+		if a.emph == "C22" && r.chance(60) {
+			reg, v = 0x00, []int{0x10, 0x20, 0x30, 0x00, int(r.byte())}[r.intn(5)]
+		}
+		if a.emph == "C23" && r.chance(50) {
+			reg = 0x01 + r.intn(2)
+		}
 		if reg == 0x40 {
 			st.lcdKnown = false
 		}
 		a.io(reg, v)
 	case skIOR:
-		a.ioLog(progIORegs[r.intn(len(progIORegs))])
+		if a.emph == "C22" && r.chance(60) {
+			a.ioLog(0x00)
+		} else {
+			a.ioLog(progIORegs[r.intn(len(progIORegs))])
+		}
 	case skMemW:
 		ad := a.memAddr()
 		if ad < 0x8000 {
@@ -373,6 +393,13 @@ func (a *asm) snippet(k int, subAddr int, st *progState) {
 			a.delay(1 + r.intn(60))
 		}
 	case skDMA:
+		if r.chance(12) {
+			// an MBC3 clock halted (or restarted) just before the transfer: the DMA engine and the cartridge clock
+			// share the mapper's per-cycle hook, nothing else
+			a.st16(0x0000, 0x0a)
+			a.st16(0x4000, 0x0c)
+			a.st16(0xa000, []int{0x40, 0x40, 0x00, 0xc1}[r.intn(4)])
+		}
 		page := []int{0x00, 0x01, 0x3f, 0x40, 0x7f, 0x80, 0x9f, 0xa0, 0xbf, 0xc0, 0xc1, 0xd0, 0xdf, 0xe0, 0xfd, 0xfe, 0xff, int(r.byte())}[r.intn(18)]
 		a.io(0x46, page)
 		for j := r.intn(4); j > 0; j-- {
@@ -494,7 +521,8 @@ func (a *asm) snippet(k int, subAddr int, st *progState) {
 
 type progState struct{ lcdKnown bool }
 
-var progCodeCarts = []string{"000000", "000000", "000000", "010100", "030203", "030203", "060100", "100102", "130203", "1b0303", "1a0202", "000100"}
+var progCodeCarts = []string{"000000", "000000", "000000", "010100", "030203", "030203", "060100", "100102", "130203", "1b0303", "1a0202", "000100",
+	"010000", "110000", "120003", "190100", "030202", "130103"}
 
 // progCode: the op line of one structured program
 func progCode(r *rng, emph string) string {
@@ -509,6 +537,9 @@ func progCode(r *rng, emph string) string {
 	hdr := progCodeCarts[0]
 	if w[skCart] > 5 || r.chance(30) {
 		hdr = progCodeCarts[r.intn(len(progCodeCarts))]
+	}
+	if (emph == "C16" || emph == "C10") && r.chance(30) {
+		hdr = []string{"100102", "130203", "110000", "120003", "0f0100"}[r.intn(5)]
 	}
 	const subAddr = 0x0068
 	a := &asm{r: r, emph: emph}
